@@ -323,6 +323,12 @@ def sample_spec(draw, min_d=1, max_d=6, min_n=0, max_n=40, datatypes=('I', 'I', 
     png = [draw(st.sampled_from([None, None, '1', '2.5', '0.5', '16'])) for _ in range(D)]
     pnv = [draw(st.sampled_from([None, '450', '600.5', '250'])) for _ in range(D)]
     pns = [draw(st.sampled_from([None, 'GFP', 'mCherry', 'label %d' % j])) for j in range(D)]
+    if D >= 2 and draw(st.sampled_from([True, False, False])):
+        # a label is free text: it may well read like the name of another channel (names stay the only names)
+        k = draw(st.integers(1, D - 1))
+        for j in range(D):
+            if draw(st.booleans()):
+                pns[j] = names[(j + k) % D]
     n = draw(st.integers(min_n, max_n))
     spec = dict(version=draw(st.sampled_from(['FCS2.0', 'FCS3.0', 'FCS3.1'])), datatype=dt,
                 byteord=('1,2,3,4' if little else '4,3,2,1'), widths=widths, ranges=ranges, names=list(names),
